@@ -1,13 +1,14 @@
-import SqlProofs.DelimR.Basic
+import SqlProofs.DelimChild.Basic
 import SqlModel.Grouping.ReindentSafe
 /-!
-# SqlProofs.DelimR.Inv — the tree invariant `NodeInv`/`ListInv`, its phases, and the two bridges
+# SqlProofs.DelimChild.Reindent.Inv — the tree invariant `NodeInv`/`ListInv`, its phases, and the two bridges
 
 * `delimSafeL u m → ListInv u .w m` (what `DelimSafe` says of the tree after the seven first passes),
 * `ListInv u .t m → delimShapeL u m = true` (what the filters need of the final tree).
 -/
 namespace Sql
-namespace DC
+namespace DCR
+open DC
 
 variable {u : Text → Text}
 
@@ -341,5 +342,5 @@ theorem kidsInv_eltMap {ph : Ph} {c : Cls} {L L1 : List Node} (hm : EltMap L L1)
     KidsInv u ph c L1 :=
   fun mo mc ht => frame_eltMap hm (h mo mc ht)
 
-end DC
+end DCR
 end Sql
